@@ -1,6 +1,7 @@
 package props
 
 import (
+	"bytes"
 	"encoding/base64"
 	"fmt"
 	"github.com/ethereum/go-ethereum/common"
@@ -150,7 +151,7 @@ func appDiff(a, b *app.ShutterApp) string { return cmp.Diff(*a, *b, appCmpOpts..
 
 func TestC10_Injection(t *testing.T) {
 	rec := recorder("C10")
-	rec.AddRule("(a) twin execution: apphist history H vs H with one refused transaction inserted at a generated position (classes: raw bytes, short/unsigned, signed garbage payload, wrong chain id, replay of an earlier executed transaction, foreign sender with every payload type) delivered through DeliverTx and/or CheckTx; oracle: no panic, non-zero code (CheckTx refuses foreign senders), no events, all later responses byte-equal, final state equal (foreign sender: after removing the injected (sender, nonce) bookkeeping entry); non-trivial = injected transaction carries a valid signature (reaches dispatch) or is a replay; distinct by (history, position, injected tx)")
+	rec.AddRule("(a) twin execution: apphist history H vs H with one refused transaction inserted at a generated position (classes: raw bytes, short/unsigned, signed garbage payload, envelope with a signature nothing can be recovered from, wrong chain id, replay of an earlier executed transaction, foreign sender with every payload type) delivered through DeliverTx and/or CheckTx; oracle: no panic, non-zero code (CheckTx refuses foreign senders), no events, all later responses byte-equal, final state equal (foreign sender: after removing the injected (sender, nonce) bookkeeping entry); non-trivial = injected transaction carries a valid signature (reaches dispatch) or is a replay; distinct by (history, position, injected tx)")
 	runRapid(t, N(1500, 50000), func(rt *rapid.T) {
 		fail := func(sig, f string, a ...any) { fatalf(rt, sig, f, a...) }
 		g, calls, c := recordHistory(rt, 7, 40, fail)
@@ -186,7 +187,7 @@ func TestC10_Injection(t *testing.T) {
 				foreign = append(foreign, i)
 			}
 		}
-		classes := []string{"raw", "short", "signedgarbage", "wrongchain"}
+		classes := []string{"raw", "short", "signedgarbage", "wrongchain", "unrecoverable-sig", "unrecoverable-sig"}
 		if len(executed) > 0 {
 			classes = append(classes, "replay", "replay", "sig-transplant", "sig-transplant")
 		}
@@ -217,6 +218,37 @@ func TestC10_Injection(t *testing.T) {
 				rt.Skip("garbage parses")
 			}
 			validSig = true
+		case "unrecoverable-sig":
+			// a well-formed envelope (65 signature bytes in front of a sound payload) whose signature no public
+			// key can be recovered from: recovery id out of range (4.., or the 27/28 other chains use), r or s
+			// zero, r beyond the group order
+			s := c.genSender(rt)
+			msg, _ := c.genMessage(rt, s)
+			good := uni.MakeTx(s, apphist.ChainID, injNonce, msg)
+			raw, err := base64.RawURLEncoding.DecodeString(string(good))
+			if err != nil || len(raw) < 65 {
+				rt.Skip("no signature to break")
+			}
+			switch rapid.SampledFrom([]string{"recid-27", "recid-28", "recid-4", "recid-255", "r-zero", "s-zero", "r-max"}).Draw(rt, "sigBreak") {
+			case "recid-27":
+				raw[64] = 27
+			case "recid-28":
+				raw[64] = 28
+			case "recid-4":
+				raw[64] = 4
+			case "recid-255":
+				raw[64] = 255
+			case "r-zero":
+				copy(raw[0:32], make([]byte, 32))
+			case "s-zero":
+				copy(raw[32:64], make([]byte, 32))
+			case "r-max":
+				copy(raw[0:32], bytes.Repeat([]byte{0xff}, 32))
+			}
+			tx = []byte(base64.RawURLEncoding.EncodeToString(raw))
+			if apphist.Decode(tx).OK {
+				rt.Skip("still recoverable")
+			}
 		case "wrongchain":
 			s := c.genSender(rt)
 			msg, _ := c.genMessage(rt, s)
